@@ -14,8 +14,15 @@ class LoopMixin:
         after it is marked `unannotated_loop`, so that a failure there is reported as a violation only when it replays on the real code"""
         ordn = self.loop_ordinals.get(id(node))
         spec = (self.cur_contract.loops if self.cur_contract else {}).get(ordn)
+        if spec is not None and spec.get("modifies") == "infer" and st is not None:
+            # the sidecar gives the invariant, the frame is every heap component a dry run of the body writes
+            spec = dict(spec, modifies=self.infer_loop_spec(node, st, body, src)["modifies"])
         if spec is None and st is not None:
             spec = self.infer_loop_spec(node, st, body, src)
+            if self.cur_contract is not None and "inferred-loop-frames" in (self.cur_contract.props or ()):
+                # the contract asks for inferred frames (trivial invariant, every component the body writes havocked): obligations stay strong —
+                # what is proved after such a cut is proved; what fails is reported as it stands
+                return ordn, spec
             self.unannotated_loops.append((self.cur_fn, ordn, getattr(node, "lineno", 0)))
             st.ghost = dict(st.ghost, unannotated_loop=True)
         return ordn, spec
@@ -34,14 +41,31 @@ class LoopMixin:
                 states = self.assign(node.target, src[3](probe, i), probe)
             elif isinstance(node, ast.While):
                 states = [s2 for s2, b in self.ev_truth(node.test, probe) if b]
+            tags = {}
             for r in self.exec_block(body, states):
                 for w in r.writes[n0:]:
                     if w[0] not in ("cls", "list.nodeowned"):
                         comps.add(w[0])
+                        # a conditional havoc (callee frame "@comp:nodeowned" / ":fresh") is kept as such; any other write makes it wholesale
+                        tag = getattr(w[3], "tag", None) if (w[1] is None and w[3] is not None) else ("fresh" if (w[1] is not None and self.is_fresh_ref(w[1], probe, st)) else None)
+                        tags.setdefault(w[0], set()).add(tag)
         finally:
             self.obligations = saved_obs
             self.calls_seen = saved_calls
-        return dict(invariant=[], modifies=["@" + c for c in sorted(comps)], auto=True)
+        mods = []
+        for c in sorted(comps):
+            t = tags.get(c, {None})
+            t = t - {"fresh"} if len(t) > 1 else t          # writes to objects allocated in the body do not widen a conditional frame
+            mods.append("@" + c + (":" + next(iter(t)) if len(t) == 1 and None not in t else ""))
+        return dict(invariant=[], modifies=mods, auto=True)
+
+    def is_fresh_ref(self, ref, probe, head):
+        """syntactic: the written object was allocated during the dry run (its reference is the allocation pointer of the head state plus an offset)"""
+        try:
+            d = z3.simplify(ref - head.alloc_ptr())
+            return z3.is_int_value(d) and d.as_long() >= 0
+        except Exception:  # noqa
+            return False
 
     def oblige(self, st, kind, tag, goal, node=None, meta=None):
         name = f"{self.cur_fn}:{kind}:{tag}"
@@ -311,6 +335,9 @@ class LoopMixin:
         # body
         b = st
         b.pc.append(i < n)
+        # where this iteration's events begin, and what the locals were at the loop head (for per-iteration obligations at the back edge)
+        b.ghost = dict(b.ghost, **{f"loop{ordn}_log": len(b.log), f"loop{ordn}_writes": len(b.writes), f"loop{ordn}_head_env": dict(b.env),
+                                   f"loop{ordn}_index": i})
         if feasible(b.pc):
             if proto.get("start"):
                 for nm, goal in proto["start"](b, i):
@@ -410,11 +437,14 @@ class LoopMixin:
                 from .state import ALLOC0
                 cond = lambda r: r < ALLOC0      # noqa: E731
                 cond.fresh_only = True
+                cond.tag = "fresh"
                 st.havoc_comp_except(comp, cond, self.component_sort(comp))
                 return
             own = st.comp("list.nodeowned")
             # havoc the component except at objects that no AST node refers to (flags as of now)
-            st.havoc_comp_except(comp, lambda r, own=own: z3.Not(z3.Select(own, r)), self.component_sort(comp))
+            keep = lambda r, own=own: z3.Not(z3.Select(own, r))     # noqa: E731
+            keep.tag = "nodeowned"
+            st.havoc_comp_except(comp, keep, self.component_sort(comp))
             return
         if text.startswith("@"):
             st.havoc_comp(text[1:], self.component_sort(text[1:]))
